@@ -16,6 +16,7 @@ A property module `harness/cXX.py` provides
     pre_build(ctx)        -> write Generated/*.lean from the real code
     extra_targets         -> additional lake targets
     normalise(out)        -> canonical form applied to both streams before diff
+    normalise_pair(case, impl_out, model_out) -> (a, b) compared instead (e.g. evaluations the model marks "not modelled")
     shrink(case, still_fails) -> smaller failing case
     search(rng, budget)   -> iterable of extra cases for the failing-input search
     exhaustive(tier)      -> bool: the enumerated part of the case space was complete
@@ -337,6 +338,7 @@ def run_check(P, tier, seed, replay=None):
     t0 = time.time()
     pid = P.ID
     ctx = Ctx(P, tier, seed)
+    P.ctx = ctx          # modules may count what their oracle covered: P.ctx.count(key)
     lines = []      # VIOLATION / KNOWN-FINDING lines
     problems = []   # broken proof obligations / correspondence streams (not yet violations)
 
@@ -432,6 +434,8 @@ def run_check(P, tier, seed, replay=None):
         if i in model_outs_by_idx:
             a = norm(impl_outs[i])
             b = norm(canon(model_outs_by_idx[i]))
+            if hasattr(P, "normalise_pair"):
+                a, b = P.normalise_pair(c, a, b)
             if a != b:
                 diffs.append(i)
     if diffs:
